@@ -1,6 +1,6 @@
 """World W1: root -> app -> {lib, lib2?}, class cls inherited by lib, tool package gen, import sources
-src/lib/*, deterministic checkout scripts.  14 features, each a toggle."""
-FEATURES = ['libscript', 'clssetup', 'var', 'invars', 'lib2', 'reparam', 'provide', 'toolpath', 'srcmod', 'srcadd', 'define', 'defval', 'twovar', 'urlsrc']
+src/lib/*, deterministic checkout scripts.  15 features, each a toggle."""
+FEATURES = ['libscript', 'clssetup', 'var', 'invars', 'lib2', 'reparam', 'provide', 'toolpath', 'srcmod', 'srcadd', 'define', 'defval', 'twovar', 'urlsrc', 'coscript']
 
 HELPERS = '''    reveal() {      # pure bash (process creation is the bottleneck of this sandbox)
         local d f line
@@ -31,7 +31,7 @@ def zero():
 def files(v):
     f = {}
     f['config.yaml'] = 'bobMinimumVersion: "0.25"\n'
-    f['default.yaml'] = 'environment:\n    ENVV: "e%d"\nwhitelist: [VERIF_LOG, VERIF_MARK]\n' % v['defval']
+    f['default.yaml'] = 'environment:\n    ENVV: "e%d"\nwhitelist: [VERIF_LOG, VERIF_MARK, VERIF_NONCE]\n' % v['defval']
     f['classes/base.yaml'] = ('checkoutSetup: |\n' + HELPERS + 'buildSetup: |\n' + HELPERS + 'packageSetup: |\n' + HELPERS)
     f['classes/cls.yaml'] = 'buildSetup: |\n    cls_fn() { echo "cls-setup-v%d"; }\n' % v['clssetup']
     f['recipes/root.yaml'] = ('root: True\ninherit: [base]\n'
@@ -45,12 +45,13 @@ def files(v):
     f['recipes/lib.yaml'] = ('inherit: [base, cls]\n'
                              'checkoutSCM:\n    scm: import\n    url: src/lib\n'
                              'checkoutDeterministic: True\n'
-                             'checkoutScript: |\n    vlog "lib checkout"\n    echo generated > generated.txt\n'
+                             'checkoutScript: |\n    vlog "lib checkout"%s\n    echo generated > generated.txt\n'
+                             'metaEnvironment:\n    LICENSE: "MIT"\n'
                              'buildVars: [%s]\n'
                              'buildTools: [gen]\n'
                              'buildScript: |\n    vlog "lib build"\n    fault lib-build\n    : > "witness-v%d-${VAR:-}-${P:-}"\n    { echo "lib-build-v%d VAR=${VAR:-} P=${P:-}"; cls_fn; gen; reveal "$@"; } > result.txt\n'
                              'packageScript: |\n    vlog "lib package"\n    fault lib-package\n    { echo lib-pkg; reveal "$1"; } > result.txt\n'
-                             'provideVars:\n    PROVIDED: "prov-v%d"\n') % (', '.join(libvars), v['libscript'], v['libscript'], v['provide'])
+                             'provideVars:\n    PROVIDED: "prov-v%d"\n') % ('\n    # comment only' if v['coscript'] else '', ', '.join(libvars), v['libscript'], v['libscript'], v['provide'])
     deps = '    - name: lib\n      use: [result, environment]\n'
     if v['reparam']: deps += '      environment: {P: "x"}\n'
     if v['lib2']: deps += '    - lib2\n'
@@ -68,7 +69,7 @@ def files(v):
     f['recipes/lib2.yaml'] = ('inherit: [base]\ndepends: [dl]\ncheckoutDeterministic: True\n'
                               'checkoutScript: |\n    vlog "lib2 checkout"\n    echo lib2-src > s.txt\n'
                               'buildVars: [ENVV]\n'
-                              'buildScript: |\n    vlog "lib2 build"\n    { echo "lib2-build ENVV=${ENVV:-}"; reveal "$@"; } > result.txt\n'
+                              'buildScript: |\n    vlog "lib2 build"\n    { echo "lib2-build ENVV=${ENVV:-} nonce=${VERIF_NONCE:-}"; reveal "$@"; } > result.txt\n'
                               'packageScript: |\n    vlog "lib2 package"\n    { echo lib2-pkg; reveal "$1"; } > result.txt\n')
     f['recipes/gen.yaml'] = ('inherit: [base]\n'
                              'buildScript: |\n    vlog "gen build"\n    mkdir -p bin bin2\n'
